@@ -98,6 +98,7 @@ type delivery struct {
 	Voided    bool // channel emptied / deleted after this delivery
 	lifetime    int
 	fateUnknown bool
+	maybeAnswered bool
 }
 
 type msgChan struct {
@@ -131,7 +132,10 @@ type chanModel struct {
 	Discarded   int64
 	Uncertain   bool // creation/deletion raced something: existence unknown
 	pendingVoid bool
+	hadConsumer bool
+	Unordered   bool // a consumer with unbounded output buffering: receipt order is not send order
 	discarded   map[string]int // pub key -> step at which the discard was acknowledged
+	discardedAt map[string]time.Time
 	ephemeralGone bool
 }
 
@@ -149,8 +153,10 @@ type topicModel struct {
 	VoidSeq   uint64
 	Tainted   bool
 	CreatedStep int
+	ExistUnknown bool
 	pauseSteps  []int
 	discarded   map[string]int
+	discardedAt map[string]time.Time
 	ephemeralGone bool
 }
 
@@ -205,6 +211,7 @@ type qWorld struct {
 	statsOK  int
 	lifetime int
 	stale    []*staleCmd
+	epoch    int // settle epoch: operations between two settles are concurrent
 	badRdy   []*consumer
 	lastStats *statsDoc
 }
@@ -345,7 +352,7 @@ func (w *qWorld) chanName(i int64) string {
 func (w *qWorld) topic(name string) *topicModel {
 	t := w.topics[name]
 	if t == nil {
-		t = &topicModel{Name: name, Ephemeral: strings.HasSuffix(name, "#ephemeral"), discarded: map[string]int{}}
+		t = &topicModel{Name: name, Ephemeral: strings.HasSuffix(name, "#ephemeral"), discarded: map[string]int{}, discardedAt: map[string]time.Time{}}
 		w.topics[name] = t
 	}
 	return t
@@ -355,7 +362,7 @@ func (w *qWorld) channel(topic, name string) *chanModel {
 	k := topic + "/" + name
 	c := w.chans[k]
 	if c == nil {
-		c = &chanModel{Topic: topic, Name: name, Key: k, Ephemeral: strings.HasSuffix(name, "#ephemeral"), msgs: map[string]*msgChan{}, discarded: map[string]int{}}
+		c = &chanModel{Topic: topic, Name: name, Key: k, Ephemeral: strings.HasSuffix(name, "#ephemeral"), msgs: map[string]*msgChan{}, discarded: map[string]int{}, discardedAt: map[string]time.Time{}}
 		w.chans[k] = c
 	}
 	return c
@@ -375,7 +382,7 @@ func (w *qWorld) markTopicCreated(name string) {
 	t := w.topic(name)
 	if !t.Exists {
 		t.Exists = true
-		t.CreatedStep = w.rc.step
+		t.CreatedStep = w.epoch
 		t.AckedMsgs, t.AckedBytes, t.UnknownMsgs, t.UnknownBytes = 0, 0, 0, 0
 		t.Paused = false
 		t.Tainted = w.inBurst
@@ -388,11 +395,13 @@ func (w *qWorld) markChannelCreated(topic, name string) {
 	if !c.Exists {
 		c.Exists = true
 		c.CreatedSeq = w.rc.Net.NextSeq()
-		c.CreatedStep = w.rc.step
+		c.CreatedStep = w.epoch
 		c.Paused = false
 		c.Fins, c.Reqs, c.Discarded = 0, 0, 0
 		c.Tainted = w.inBurst
 		c.Sampled = false
+		c.hadConsumer = false
+		c.Unordered = false
 		c.msgs = map[string]*msgChan{}
 	}
 }
@@ -432,7 +441,7 @@ func (w *qWorld) knownChannels(topic string) []string {
 
 func (w *qWorld) recordPub(body []byte, topic, via string, conn int, deferMs int64, batch, pos int) *pubRec {
 	p := &pubRec{Key: string(body), N: w.nextBody, Topic: topic, Via: via, Conn: conn, DeferMs: deferMs, lifetime: w.lifetime, topicEpoch: w.topic(topic).Epoch,
-		SendSeq: w.rc.Net.NextSeq(), SendAt: time.Now(), SendStep: w.rc.step, Batch: batch, BatchPos: pos}
+		SendSeq: w.rc.Net.NextSeq(), SendAt: time.Now(), SendStep: w.epoch, Batch: batch, BatchPos: pos}
 	p.ChansAtPub = w.knownChannels(topic)
 	if t := w.topics[topic]; t != nil && t.Exists && t.Paused {
 		p.TopicPausedAtSend = true
@@ -461,6 +470,11 @@ func (w *qWorld) ackPubs(ps []*pubRec, ok bool, unknown bool) {
 			t.AckedBytes += int64(len(p.Key))
 		default:
 			p.Rejected = true
+			// a refused publish may nevertheless have created the topic
+			// (MPUB and HTTP publishes look the topic up before validating the body)
+			if !t.Exists {
+				t.ExistUnknown = true
+			}
 		}
 	}
 }
@@ -643,7 +657,7 @@ func (w *qWorld) opSub(op Op) {
 	if _, err := cl.Identify(opts, nil); err != nil {
 		w.rc.Logf("identify failed: %v", err)
 		co.Dead = true
-		co.DeadStep = w.rc.step
+		co.DeadStep = w.epoch
 		cl.Close()
 		return
 	}
@@ -654,7 +668,7 @@ func (w *qWorld) opSub(op Op) {
 		w.rc.Logf("SUB %s %s failed: ok=%v %q", topic, ch, ok, f.Data)
 		if !ok || f.Type == frameError {
 			co.Dead = true
-			co.DeadStep = w.rc.step
+			co.DeadStep = w.epoch
 			// a failed SUB may or may not have created the topic/channel
 			if c := w.chans[co.ck]; c == nil || !c.Exists {
 				w.channel(topic, ch).Uncertain = true
@@ -663,13 +677,18 @@ func (w *qWorld) opSub(op Op) {
 		return
 	}
 	co.Subscribed = true
-	co.SubStep = w.rc.step
+	co.SubStep = w.epoch
+	w.rc.Logf("%s subscribed to %s rdy=%d unbuf=%v obt=%v msgTimeout=%v sample=%d opts=%v", cl.Name, co.ck, op.C, co.Unbuffered, co.OBT, co.MsgTimeout, co.Sample, opts)
 	w.markChannelCreated(topic, ch)
 	cm := w.channel(topic, ch)
 	cm.Uncertain = false
+	cm.hadConsumer = true
 	if co.Sample > 0 {
 		cm.Sampled = true
 		cm.Tainted = true
+	}
+	if _, bounded := co.slack(); !bounded {
+		cm.Unordered = true
 	}
 	if op.C > 0 {
 		w.setRdy(co, op.C)
@@ -677,6 +696,7 @@ func (w *qWorld) opSub(op Op) {
 }
 
 func (w *qWorld) setRdy(co *consumer, n int64) {
+	w.rc.Logf("%s RDY %d", co.cl.Name, n)
 	co.RdyPrev = co.Rdy
 	if co.Rdy > co.rdyStepMax {
 		co.rdyStepMax = co.Rdy
@@ -685,7 +705,7 @@ func (w *qWorld) setRdy(co *consumer, n int64) {
 		co.rdyStepMax = n
 	}
 	co.Rdy = n
-	co.RdyStep = w.rc.step
+	co.RdyStep = w.epoch
 	co.cl.Cmd(fmt.Sprintf("RDY %d", n), nil)
 }
 
@@ -702,11 +722,13 @@ func (w *qWorld) liveConsumer(i int64) *consumer {
 	return live[int(uint64(i)%uint64(len(live)))]
 }
 
-// heldOf lists deliveries to co that the client has not answered.
+// heldOf lists the deliveries to co that the client has not answered and that
+// are the latest delivery of their message on the channel (commands name a
+// message by id, so an answer always concerns the latest delivery).
 func heldOf(co *consumer) []*delivery {
 	var out []*delivery
 	for _, d := range co.Dels {
-		if d.Answer == "" && !d.Voided {
+		if d.Answer == "" && !d.Voided && d.mc.dels[len(d.mc.dels)-1] == d {
 			out = append(out, d)
 		}
 	}
@@ -728,9 +750,7 @@ func (w *qWorld) opAnswer(op Op) {
 				continue
 			}
 			for _, x := range o.Dels {
-				if o != co || x.Answer != "" {
-					cands = append(cands, x)
-				}
+				cands = append(cands, x)
 			}
 		}
 		if len(cands) == 0 {
@@ -749,12 +769,13 @@ func (w *qWorld) opAnswer(op Op) {
 	}
 	d = held[int(uint64(op.B)%uint64(len(held)))]
 	id := d.mc.pub.ID
+	w.rc.Logf("%s %s m%06d (att %d)", co.cl.Name, op.Kind, d.mc.pub.N, d.Att)
 	switch op.Kind {
 	case "fin":
-		d.Answer, d.AnsAt, d.AnsStep = "fin", time.Now(), w.rc.step
+		d.Answer, d.AnsAt, d.AnsStep = "fin", time.Now(), w.epoch
 		co.cl.Cmd("FIN "+id, nil)
 	case "req":
-		d.Answer, d.AnsAt, d.AnsStep = "req", time.Now(), w.rc.step
+		d.Answer, d.AnsAt, d.AnsStep = "req", time.Now(), w.epoch
 		delay := op.C
 		d.ReqDelay = ms(delay)
 		spell := fmt.Sprintf("%d", delay)
@@ -772,10 +793,11 @@ func (w *qWorld) sendStale(co *consumer, d *delivery, kind int64) {
 	id := d.mc.pub.ID
 	k := []string{"FIN", "REQ", "TOUCH"}[int(uint64(kind)%3)]
 	line := k + " " + id
+	w.rc.Logf("%s stale %s m%06d", co.cl.Name, k, d.mc.pub.N)
 	if k == "REQ" {
 		line += " 0"
 	}
-	w.stale = append(w.stale, &staleCmd{co: co, d: d, kind: k, step: w.rc.step, burst: w.inBurst, holderBefore: w.currentHolder(d.mc)})
+	w.stale = append(w.stale, &staleCmd{co: co, d: d, kind: k, step: w.epoch, burst: w.inBurst, holderBefore: w.currentHolder(d.mc)})
 	co.cl.Cmd(line, nil)
 }
 
@@ -784,6 +806,7 @@ func (w *qWorld) opClose(op Op) {
 	if co == nil {
 		return
 	}
+	w.rc.Logf("closing %s (mode %d)", co.cl.Name, op.B)
 	if op.B == 1 {
 		co.cl.Conn.Reset()
 		w.rc.Fault("conn_reset")
@@ -799,10 +822,50 @@ func (w *qWorld) consumerDied(co *consumer) {
 		return
 	}
 	co.Dead = true
-	co.DeadStep = w.rc.step
+	co.DeadStep = w.epoch
 	if c := w.chans[co.ck]; c != nil {
-		c.ConnEnds = append(c.ConnEnds, w.rc.step)
+		c.ConnEnds = append(c.ConnEnds, w.epoch)
+		w.ephemeralCleanup(c)
 	}
+}
+
+// ephemeralCleanup: an ephemeral channel disappears with its last consumer,
+// an ephemeral topic with its last channel.
+func (w *qWorld) ephemeralCleanup(c *chanModel) {
+	if c.Ephemeral && c.Exists && w.liveConsumersOf(c.Key) == 0 && c.hadConsumer {
+		w.rc.Logf("ephemeral channel %s gone", c.Key)
+		c.Exists = false
+		c.ephemeralGone = true
+		c.Epoch++
+		c.VoidSeq = w.rc.Net.NextSeq()
+		c.VoidStep = w.epoch
+	}
+	t := w.topic(c.Topic)
+	if t.Ephemeral && t.Exists && !c.Exists {
+		n := 0
+		for _, o := range w.chans {
+			if o.Topic == c.Topic && (o.Exists || o.Uncertain) {
+				n++
+			}
+		}
+		if n == 0 {
+			w.rc.Logf("ephemeral topic %s gone", t.Name)
+			t.Exists = false
+			t.ephemeralGone = true
+			t.Epoch++
+			t.VoidSeq = w.rc.Net.NextSeq()
+		}
+	}
+}
+
+// co0subscribed: the channel had at least one subscribed consumer at some point.
+func co0subscribed(w *qWorld, ck string) bool {
+	for _, co := range w.cons {
+		if co.ck == ck && co.Subscribed {
+			return true
+		}
+	}
+	return false
 }
 
 func (w *qWorld) opAdmin(op Op) func() {
@@ -817,7 +880,7 @@ func (w *qWorld) opAdmin(op Op) func() {
 		path = "/topic/" + action + "?topic=" + url.QueryEscape(topic)
 	}
 	sendSeq := w.rc.Net.NextSeq()
-	sendStep := w.rc.step
+	sendStep := w.epoch
 	// effects that must be assumed from the moment the request is sent
 	switch what {
 	case "empty_channel", "delete_channel":
@@ -836,10 +899,26 @@ func (w *qWorld) opAdmin(op Op) func() {
 			}
 		}
 	}
+	preDiscard := int64(-1)
+	if what == "empty_channel" && !w.inBurst && len(w.pending) == 0 {
+		if doc, _ := w.getStats(""); doc != nil {
+			if sc := doc.channel(topic, ch); sc != nil {
+				preDiscard = sc.Depth + sc.InFlightCount + sc.DeferredCount
+			}
+		}
+	}
 	done := make(chan HTTPResp, 1)
 	go func() { done <- httpDo(w.rc, "POST", w.httpAddr, path, nil, nil, nil, 120*time.Second) }()
 	burst := w.inBurst
 	return func() {
+		if c := w.chans[topic+"/"+ch]; c != nil && what == "empty_channel" {
+			w.rc.Logf("empty %s: pre-discard count %d (burst=%v) discarded so far %d fins %d", c.Key, preDiscard, burst, c.Discarded, c.Fins)
+			if preDiscard >= 0 && !burst {
+				c.Discarded += preDiscard
+			} else {
+				c.Tainted = true
+			}
+		}
 		resp := <-done
 		w.rc.Logf("admin %s -> %d %s err=%v", path, resp.Status, resp.Body, resp.Err)
 		w.applyAdmin(what, topic, ch, resp, burst)
@@ -890,18 +969,18 @@ func (w *qWorld) applyAdmin(what, topic, ch string, resp HTTPResp, burst bool) {
 	case "create_channel":
 		w.markChannelCreated(topic, ch)
 	case "pause_topic":
-		t.Paused, t.PauseStep = true, w.rc.step
-		t.pauseSteps = append(t.pauseSteps, w.rc.step)
+		t.Paused, t.PauseStep = true, w.epoch
+		t.pauseSteps = append(t.pauseSteps, w.epoch)
 	case "unpause_topic":
-		t.Paused, t.PauseStep = false, w.rc.step
-		t.pauseSteps = append(t.pauseSteps, w.rc.step)
+		t.Paused, t.PauseStep = false, w.epoch
+		t.pauseSteps = append(t.pauseSteps, w.epoch)
 	case "pause_channel":
 		if c := w.chans[ck]; c != nil {
-			c.Paused, c.PausedStep = true, w.rc.step
+			c.Paused, c.PausedStep = true, w.epoch
 		}
 	case "unpause_channel":
 		if c := w.chans[ck]; c != nil {
-			c.Paused, c.PausedStep = false, w.rc.step
+			c.Paused, c.PausedStep = false, w.epoch
 		}
 	case "empty_channel":
 		if c := w.chans[ck]; c != nil {
@@ -920,9 +999,15 @@ func (w *qWorld) applyAdmin(what, topic, ch string, resp HTTPResp, burst bool) {
 		t.Exists = false
 		t.Epoch++
 		t.Paused = false
+		if burst {
+			// a racing publish/subscribe/create may have re-created it
+			t.ExistUnknown = true
+			t.Tainted = true
+		}
 		for _, p := range w.pubList {
 			if p.Topic == topic && p.AckSeq != 0 && p.AckSeq < t.VoidSeq {
-				t.discarded[p.Key] = w.rc.step
+				t.discarded[p.Key] = w.epoch
+				t.discardedAt[p.Key] = time.Now()
 			}
 		}
 		for _, k := range w.sortedChanKeys() {
@@ -953,12 +1038,13 @@ func (w *qWorld) voidChannel(c *chanModel, deleted bool, burst bool) {
 	}
 	if deleted {
 		c.Exists = false
-		c.Uncertain = false
+		c.Uncertain = burst
 		c.Paused = false
+		defer w.ephemeralCleanup(c)
 		for _, co := range w.cons {
 			if co.ck == c.Key && !co.Dead {
 				co.expectClose = true
-				co.expectCloseStep = w.rc.step
+				co.expectCloseStep = w.epoch
 			}
 		}
 	}
